@@ -22,6 +22,7 @@ func checkC20(c *Ctx, r *Report) {
 	r.rule("C20.R1.dup-pairs", 79, "isDuplicate compares each RDATA field with itself on the other record using the kind's comparator")
 	r.rule("C20.R1.const-false", 2, "OPT and PrivateRR isDuplicate are the constant false")
 	r.rule("C20.R1b.copy-pos", 81, "copy initialises field i from field i")
+	copyNoMakeThenAppend(c, r, "C20.R1b.copy-no-make-append")
 	for _, t := range c.rrTypes() {
 		if t.Name == "OPT" || t.Name == "PrivateRR" {
 			fd := c.decl(t.Name + ".isDuplicate")
